@@ -473,6 +473,48 @@ def fact_ruleless_instance_recomputes(repo):
         return None
 
 
+def fact_cfg_reads_cache(repo):
+    """FilesystemStorageBackend.__init__ takes memory_cache_mb from the configuration when the argument is absent"""
+    try:
+        fn = _cls_fn(repo, "storage_filesystem.py", "FilesystemStorageBackend", "__init__")
+        for c in ast.walk(fn):
+            if isinstance(c, ast.Call) and isinstance(c.func, ast.Attribute) and c.func.attr == "get" and isinstance(c.func.value, ast.Name) and c.func.value.id == "config" \
+                    and c.args and isinstance(c.args[0], ast.Constant) and c.args[0].value == "memory_cache_mb":
+                return True
+        return False
+    except Exception:
+        return None
+
+
+def fact_cfg_dumps_meta(repo):
+    """FilesystemStorageBackend.to_dict emits metadata_path"""
+    try:
+        fn = _cls_fn(repo, "storage_filesystem.py", "FilesystemStorageBackend", "to_dict")
+        for n in ast.walk(fn):
+            if isinstance(n, ast.Assign) and len(n.targets) == 1 and isinstance(n.targets[0], ast.Subscript):
+                sl = n.targets[0].slice
+                if isinstance(sl, ast.Constant) and sl.value == "metadata_path":
+                    return True
+        return False
+    except Exception:
+        return None
+
+
+def fact_cfg_first_match(repo):
+    """Environment.get_cluster walks self.repos in order and returns at the first repository that defines the name"""
+    try:
+        fn = _cls_fn(repo, "configuration.py", "Environment", "get_cluster")
+        for n in fn.body:
+            if isinstance(n, ast.For) and isinstance(n.iter, ast.Attribute) and n.iter.attr == "repos" and isinstance(n.iter.value, ast.Name) and n.iter.value.id == "self":
+                first = n.body[0] if n.body else None
+                if isinstance(first, ast.If) and any(isinstance(x, ast.Return) for x in first.body) and len(n.body) == 1 and not n.orelse:
+                    return True
+                return None
+        return False
+    except Exception:
+        return None
+
+
 FACTS = []
 
 
@@ -586,6 +628,21 @@ def _f20(repo):
 @fact("ruleless_instance_recomputes", "option bool")
 def _f21(repo):
     return _opt_bool(fact_ruleless_instance_recomputes(repo))
+
+
+@fact("cfg_reads_cache", "option bool")
+def _f22(repo):
+    return _opt_bool(fact_cfg_reads_cache(repo))
+
+
+@fact("cfg_dumps_meta", "option bool")
+def _f23(repo):
+    return _opt_bool(fact_cfg_dumps_meta(repo))
+
+
+@fact("cfg_first_match", "option bool")
+def _f24(repo):
+    return _opt_bool(fact_cfg_first_match(repo))
 
 
 def generate(repo):
